@@ -74,7 +74,7 @@ def runSteps (fix srt : Bool) (dd : DefDict) : Obj → List (String × Op) → L
       let base := [("s", jstr (strL o'.kids))]
       let extra := if nm == "validate" then
           [("v", jarr ((validateDefs foldAscii srt dd o'.kids).map fun k => Json.str (vkindName k)))]
-        else if nm == "sorted" then [("sorted", jstr (strL (sortG o'.kids)))]
+        else if nm == "sorted" then [("sorted", jstr (strL (sortG foldAscii o'.kids)))]
         else []
       jobj (base ++ extra) :: runSteps fix srt dd o' rest
 
